@@ -83,8 +83,10 @@ Fixpoint map2 {X Y W} (f : X -> Y -> W) (l1 : list X) (l2 : list Y) : list W :=
 Definition model_t (r d : bin) : b64 :=
   student_t (of_bits (fst r)) (of_bits (snd r)) (of_bits (fst d)) (of_bits (snd d)).
 
-(* numpy scalars compute e**2 with libm pow (not correctly rounded): for 0-d
-   datasets the statistic is compared up to 2^-40 relative, bit-exactly otherwise *)
+(* the statistic is compared within 2^-40 relative (numpy scalars compute e**2 with libm
+   pow, which is not correctly rounded; an implementation may also legitimately evaluate
+   the quadratic sum in another order); the decisions are recomputed from the
+   implementation's own t, threshold and p-values, so the tolerance cannot flip them *)
 Definition check_dataset (scalar : bool) (thr alpha : b64) (ref : list bin)
            (c : list bin * obs) : bool :=
   let '(ds, o) := c in
@@ -92,7 +94,7 @@ Definition check_dataset (scalar : bool) (thr alpha : b64) (ref : list bin)
   let ts := map of_bits (o_t o) in
   Nat.eqb (length ds) n && Nat.eqb (length ts) n
   && forallb (fun b => b)
-       (map2 (fun m i => if scalar then close m i else same_bits m i) (map2 model_t ref ds) ts)
+       (map2 close2 (map2 model_t ref ds) ts)
   && list_eqb Bool.eqb (map (oracle thr) ts) (o_oracles o)
   && list_eqb Bool.eqb (map (fun p => pdecision alpha (of_bits p)) (o_p o)) (o_pdec o).
 
